@@ -615,6 +615,9 @@ def call_method(ip, obj, fam, name, args, kwargs, lineno):
         a = obj
         if name == "ravel":
             return ravel2(ip, a, lineno)
+        if name == "copy":
+            f = a.snapshot2()
+            return SArr2.fresh(a.rows, a.cols, f, a.kind, a.enc)
         if name == "reshape":
             raise Unsupported("reshape of 2-D")
         if name == "raw":
